@@ -4,6 +4,8 @@ import ZipVerif.Lemmas.FaultAppend
 import ZipVerif.Lemmas.FaultVisit
 import ZipVerif.Lemmas.MRun
 import ZipVerif.Model.Interrupted
+import ZipVerif.Lemmas.FaultInterrupted
+import ZipVerif.Lemmas.FaultInterruptedW
 import ZipVerif.Props.C05
 import ZipVerif.Props.C12
 /-
@@ -16,6 +18,17 @@ flushes, seeks are counted in `Dev.calls`) fails with `Err(io::Error)` of the ki
 `Uniform.kind`: no computation changes it), every other call behaves normally; `none` is the failure-free
 run.  All theorems quantify over EVERY `k`, every device (hence every kind), every writer state / archive
 value.
+
+KINDS.  `M.prim` fails HARD with whatever kind the device has: sections A-D, and the calculus `Clean` / `Tight` /
+`ErrOnFire` / `EP` they rest on, are statements about a reader / writer all of whose I/O calls forward every failure.
+That is what the crate and std do for every `io::ErrorKind` but one: `Interrupted` is RETRIED by `read_exact`,
+`read_to_end`, `io::copy` and `write_all`.  For that kind the theorems of A-D over `openArchive`, `byIndexRead`, `step` …
+describe a device failure that std would have absorbed as if it were reported (a sound over-approximation of "is
+reported", but not the code's behaviour: `interrupted_not_modelled_in_read_exact`); what the code does under
+`Interrupted` is stated over the models with std's convention (`Model/Interrupted.lean`, `Model/InterruptedW.lean`) in
+section F: `*_hard_kinds` (those models ARE the hard-failure ones when `d.fkind ≠ .interrupted` - the hypothesis under
+which A-D speak about the code), `*_interrupted_trichotomy`, and the clause for ANY kind: `open_ok_is_faultfree_any_kind`,
+`read_ok_is_faultfree_any_kind`, `all_ok_is_faultfree_any_kind`, `fired_fault_is_error_hard_kinds`.
 
 Helper files: `Lemmas/FaultCore.lean` (`Fired`, `Uniform`, `Clean`/`Tight`, `ErrOnFire`, `EP`/`StepOK`,
 the tactic `fault`), `Lemmas/FaultWriter.lean` (every writer function), `Lemmas/FaultReader.lean`
@@ -41,6 +54,9 @@ D. headline: `all_ok_is_faultfree`, `fault_outcome_dichotomy` (writer), `open_ok
    consumption pattern: full strength since the visitor API drains explicitly), `stream_ok_is_faultfree_partial` (the
    bare `read_zipfile_from_stream`: the full clause is false, K-J), `append_ok_is_faultfree`
    (no exception any more), `append_all_ok_is_faultfree` (scripts that start with `new_append`)
+F. `ErrorKind::Interrupted` (std's retry loops): the seekable reader, `new_append` and the writer with std's convention
+   against the hard-failure models - `*_hard_kinds`, `*_interrupted_trichotomy`, `*_ok_is_faultfree_any_kind`,
+   `all_ok_is_faultfree_any_kind`, `fired_fault_is_error_hard_kinds`, witnesses over every fault index.
 E. concrete runs evaluated by the kernel, including the D18 regressions (`d18_regression`,
    `d18_regression_every_kind`) and the witnesses against the pre-repair definitions
    (`d18_pre_fix_witness`, `d18_invalid_input_pre_fix_witness`, `d22_pre_fix_witness`).
@@ -725,13 +741,14 @@ example :
       = some (.io .interrupted) := by
   decide +kernel
 
-/-- **Known model limitation, stated (`interrupted_not_modelled_in_read_exact`)**: `M.readExact` / `M.writeAll` (and
-with them the seekable reader and the writer) treat a failure of EVERY kind as a hard one, whereas std's `read_exact` /
-`write_all` retry `Interrupted`: the model answers `Err(Interrupted)` where the code succeeds with one more I/O call
-(`fault.read … k=5 kind=interrupted` on `zip64Zero`: implementation `open=ok …  ncalls=52`, model
-`open=err:io:interrupted ncalls=6`).  Such faults are judged by the oracle alone on `fault.read` / `fault.write`;
-the streaming ops use `M.retried`; `Model/Interrupted.lean` has the seekable reader's parsers with std's convention
-(`open_interrupted_witness` below), not yet used by the driver. -/
+/-- **What the hard-failure primitives do NOT describe (`interrupted_not_modelled_in_read_exact`)**: `M.readExact` /
+`M.writeAll` (and with them `openArchive`, `byIndexRead`, the writer model `step`) treat a failure of EVERY kind as a hard
+one, whereas std's `read_exact` / `write_all` retry `Interrupted`: these functions answer `Err(Interrupted)` where the
+code succeeds with one more I/O call (`fault.read … k=5 kind=interrupted` on `zip64Zero`: implementation `open=ok …
+ncalls=52`, hard-failure model `open=err:io:interrupted ncalls=6`).  They are the models of the code for every OTHER kind
+(`open_hard_kinds`, `writer_call_hard_kinds`); for `Interrupted` the models with std's convention are `openArchiveI`,
+`byIndexReadI` / `byIndexReadB`, `stepI`, `newAppendI` (section F), from which the driver answers `fault.read` /
+`fault.write … kind=interrupted` (`open_interrupted_witness`: call 5 succeeds there, as in the implementation). -/
 theorem interrupted_not_modelled_in_read_exact :
     errOf (M.readExact 4 (some 0) (Dev.ofBytesK [1, 2, 3, 4] .interrupted)).1 = some (.io .interrupted) ∧
     okOf (M.retried (M.readExact 4) (some 0) (Dev.ofBytesK [1, 2, 3, 4] .interrupted)).1 = some [1, 2, 3, 4] := by
@@ -936,18 +953,321 @@ theorem io_propagates {α β} (s : WState) (m : M α) (kont : α → M (Except Z
   rw [M.bind_apply, M.attempt_apply, h]
   rfl
 
-/-! ### `Interrupted` on the seekable reader: the generic parsers at `MI`
+/-! ## F. `ErrorKind::Interrupted`: the models with std's retry convention
+
+### `Interrupted` on the seekable reader: the generic parsers at `MI`
 
 `Model/Interrupted.lean` instantiates the generic parsers (`G.openArchive`, `G.findContent`: the functions proved equal
 to the model's at `M`, `Lemmas/ShortRead`) at the monad `MI`, where `read_exact` / `read_to_end` are std's retry loops and
-`seek` is a bare call.  What is PROVED: the behaviour of the three loops (below).  What is only CHECKED (kernel, on the
-witness archive; by hand against the implementation on all 54 fault indices of `fault.read` on that archive): the
-composed `openArchiveI`.  NOT wired into the driver: an experiment doing so (entries read with a retrying `read_to_end`)
-disagreed with the harness on `fault.read` lines where the fault falls into the harness's own entry-reading loop, which
-does not retry - the consumer has to be modelled as the streaming ops do (`Consume`).  NOT proved:
-`openArchiveI = openArchive` on devices with hard failures in general (it needs one induction per parser, as
-`G.openArchive_M` did), and the fault calculus (`Clean` / `Tight` / `ErrOnFire`) for `MI`; the writer has no `MI`
-counterpart yet. -/
+`seek` is a bare call: `openArchiveI`, `findContentI`, and the entry reads `byIndexReadI` (consumer = std's `read_to_end` /
+`io::copy`: retries) and `byIndexReadB` (consumer = a hand-written `read` loop that does not retry - what the fault
+harness's `run_read` does; the driver answers `fault.read … kind=interrupted` from it).
+
+PROVED (helper c11c, `Lemmas/FaultInterrupted`): the relation `RI x y` between a hard-failure computation and its
+counterpart with std's convention - closed under bind / attempt / if / the primitives, established for every parser by
+the induction `G.openArchive_M` needed - gives, for `ZipArchive::new`, `find_content` and both entry reads, on EVERY device
+and fault index: equality with the hard-failure model when the device does not fail with `Interrupted`
+(`open_hard_kinds` …), and under an `Interrupted` fault the trichotomy not reached / absorbed by a retry loop (outcome,
+value, position of the failure-free run, one more call) / fired at a bare call and reported (`open_interrupted_trichotomy`
+…).  The C11 clause for ANY kind: `open_ok_is_faultfree_any_kind`, `read_ok_is_faultfree_any_kind`,
+`open_fault_outcome_any_kind`, `seekable_reader_no_panic_any_kind`.  Which calls are bare is a property of the run (the
+`seek`s); named ones: `open_first_seek_reported`, `find_content_first_seek_reported`; all of them on a witness:
+`open_interrupted_witness`.  The WRITER: `Model/InterruptedW.lean` (the generic writer `GW` at `MI`), theorems below
+(`writer_call_hard_kinds` … `all_ok_is_faultfree_any_kind`). -/
+
+/-- **On a device that fails with any kind but `Interrupted` the model with std's convention IS the hard-failure
+model** - `ZipArchive::new`, `find_content`, both entry reads; every fault index, every device. -/
+theorem open_hard_kinds (fa : Option Nat) (d : Dev) (hk : d.fkind ≠ .interrupted) :
+    openArchiveI fa d = openArchive fa d ∧
+    (∀ f, findContentI f fa d = findContent f fa d) ∧
+    (∀ ext a i pw, byIndexReadI ext a i pw fa d = byIndexRead ext a i pw fa d) ∧
+    (∀ ext a i pw, byIndexReadB ext a i pw fa d = byIndexRead ext a i pw fa d) :=
+  ⟨openArchiveI_ri.hard fa d hk, fun f => (findContentI_ri f).hard fa d hk,
+   fun ext a i pw => (byIndexReadI_ri ext a i pw).hard fa d hk,
+   fun ext a i pw => (byIndexReadB_ri ext a i pw).hard fa d hk⟩
+
+/-- … and without a fault, whatever kind the device would fail with. -/
+theorem open_no_fault (d : Dev) :
+    openArchiveI none d = openArchive none d ∧
+    (∀ f, findContentI f none d = findContent f none d) ∧
+    (∀ ext a i pw, byIndexReadI ext a i pw none d = byIndexRead ext a i pw none d) ∧
+    (∀ ext a i pw, byIndexReadB ext a i pw none d = byIndexRead ext a i pw none d) :=
+  ⟨openArchiveI_ri.no_fault d, fun f => (findContentI_ri f).no_fault d,
+   fun ext a i pw => (byIndexReadI_ri ext a i pw).no_fault d,
+   fun ext a i pw => (byIndexReadB_ri ext a i pw).no_fault d⟩
+
+/-- **`ZipArchive::new` under one fault, `Interrupted` included - the trichotomy.**  (1) the fault is not reached: the
+failure-free run; (2) the device fails with `Interrupted` and the fault hit a call inside a `read_exact`: it is
+INVISIBLE - outcome, archive value, buffer and position of the failure-free run, one more I/O call; (3) the fault
+fired in the hard-failure run as well - a bare `seek` when the kind is `Interrupted`, any call otherwise -: the answer
+is the hard-failure model's, which is an error (`open_fired_fault_is_error`). -/
+theorem open_interrupted_trichotomy (k : Nat) (d : Dev) :
+    (¬ Fired k d (openArchive none d).2 ∧ openArchiveI (some k) d = openArchive none d) ∨
+    (Fired k d (openArchive none d).2 ∧ d.fkind = .interrupted ∧
+      openArchiveI (some k) d = ((openArchive none d).1, (openArchive none d).2.shift 1)) ∨
+    (Fired k d (openArchive none d).2 ∧ Fired k d (openArchive (some k) d).2 ∧
+      openArchiveI (some k) d = openArchive (some k) d ∧ ∃ e, (openArchiveI (some k) d).1 = .err e) := by
+  rcases openArchiveI_ri.interrupted k d with h | h | ⟨h1, h2, h3⟩
+  · exact Or.inl h
+  · exact Or.inr (Or.inl h)
+  · refine Or.inr (Or.inr ⟨h1, h2, h3, ?_⟩)
+    rw [h3]
+    exact openArchive_errOnFire k d h2
+
+/-- the same for `find_content` -/
+theorem find_content_interrupted_trichotomy (f : FileData) (k : Nat) (d : Dev) :
+    (¬ Fired k d (findContent f none d).2 ∧ findContentI f (some k) d = findContent f none d) ∨
+    (Fired k d (findContent f none d).2 ∧ d.fkind = .interrupted ∧
+      findContentI f (some k) d = ((findContent f none d).1, (findContent f none d).2.shift 1)) ∨
+    (Fired k d (findContent f none d).2 ∧ Fired k d (findContent f (some k) d).2 ∧
+      findContentI f (some k) d = findContent f (some k) d ∧ (findContentI f (some k) d).1 = .err (.io d.fkind)) := by
+  rcases (findContentI_ri f).interrupted k d with h | h | ⟨h1, h2, h3⟩
+  · exact Or.inl h
+  · exact Or.inr (Or.inl h)
+  · refine Or.inr (Or.inr ⟨h1, h2, h3, ?_⟩)
+    rw [h3]
+    exact (findContent_tight f).reports h2
+
+/-- … and for the entry reads, with a retrying consumer (`byIndexReadI`) and a bare one (`byIndexReadB`). -/
+theorem read_interrupted_trichotomy (ext : Ext) (a : Archive) (i : Nat) (pw : Option Bytes) (k : Nat) (d : Dev) :
+    ∀ y, (y = byIndexReadI ext a i pw ∨ y = byIndexReadB ext a i pw) →
+    (¬ Fired k d (byIndexRead ext a i pw none d).2 ∧ y (some k) d = byIndexRead ext a i pw none d) ∨
+    (Fired k d (byIndexRead ext a i pw none d).2 ∧ d.fkind = .interrupted ∧
+      y (some k) d = ((byIndexRead ext a i pw none d).1, (byIndexRead ext a i pw none d).2.shift 1)) ∨
+    (Fired k d (byIndexRead ext a i pw none d).2 ∧ Fired k d (byIndexRead ext a i pw (some k) d).2 ∧
+      y (some k) d = byIndexRead ext a i pw (some k) d ∧ (y (some k) d).1 = .err (.io d.fkind)) := by
+  intro y hy
+  have hri : RI (byIndexRead ext a i pw) y := by
+    rcases hy with rfl | rfl
+    · exact byIndexReadI_ri ext a i pw
+    · exact byIndexReadB_ri ext a i pw
+  rcases hri.interrupted k d with h | h | ⟨h1, h2, h3⟩
+  · exact Or.inl h
+  · exact Or.inr (Or.inl h)
+  · refine Or.inr (Or.inr ⟨h1, h2, h3, ?_⟩)
+    rw [h3]
+    exact (byIndexRead_tight ext a i pw).reports h2
+
+/-- **`open_ok_is_faultfree_any_kind`** - the C11 clause for `ZipArchive::new` at full strength, `Interrupted` included:
+`Ok` under one fault of ANY kind at ANY index carries the failure-free archive value, and the device is the
+failure-free one (bytes, position, calls) - or, when a retry loop absorbed an `Interrupted`, that device with exactly one
+more I/O call counted. -/
+theorem open_ok_is_faultfree_any_kind {k : Nat} {d d' : Dev} {a : Archive}
+    (h : openArchiveI (some k) d = (.ok a, d')) :
+    ∃ d0, openArchive none d = (.ok a, d0) ∧
+      (d' = d0 ∨ (d.fkind = .interrupted ∧ Fired k d d0 ∧ d' = d0.shift 1)) :=
+  openArchiveI_ri.ok_is_faultfree openArchive_errOnFire h
+
+/-- **`read_ok_is_faultfree_any_kind`** - the same for the entry reads (retrying or bare consumer) and
+`find_content`. -/
+theorem read_ok_is_faultfree_any_kind (ext : Ext) (a : Archive) (i : Nat) (pw : Option Bytes) (k : Nat) (d d' : Dev) :
+    (∀ r, byIndexReadI ext a i pw (some k) d = (.ok r, d') →
+      ∃ d0, byIndexRead ext a i pw none d = (.ok r, d0) ∧
+        (d' = d0 ∨ (d.fkind = .interrupted ∧ Fired k d d0 ∧ d' = d0.shift 1))) ∧
+    (∀ r, byIndexReadB ext a i pw (some k) d = (.ok r, d') →
+      ∃ d0, byIndexRead ext a i pw none d = (.ok r, d0) ∧
+        (d' = d0 ∨ (d.fkind = .interrupted ∧ Fired k d d0 ∧ d' = d0.shift 1))) ∧
+    (∀ f r, findContentI f (some k) d = (.ok r, d') →
+      ∃ d0, findContent f none d = (.ok r, d0) ∧
+        (d' = d0 ∨ (d.fkind = .interrupted ∧ Fired k d d0 ∧ d' = d0.shift 1))) :=
+  ⟨fun _ h => (byIndexReadI_ri ext a i pw).ok_is_faultfree (byIndexRead_tight ext a i pw).errOnFire h,
+   fun _ h => (byIndexReadB_ri ext a i pw).ok_is_faultfree (byIndexRead_tight ext a i pw).errOnFire h,
+   fun f _ h => (findContentI_ri f).ok_is_faultfree (findContent_tight f).errOnFire h⟩
+
+/-- **`read_scenario_any_kind`** - open an archive and read every entry by index (consumer: a bare `read` loop - the
+scenario the driver answers `fault.read` from), one fault of ANY kind at ANY I/O call index: on a device that does not
+fail with `Interrupted` the scenario IS `openAndReadAll` (so `read_scenario_dichotomy` applies); in general, if `new`
+returned an archive and every entry read returned a value, the archive value, every entry's result and the final device
+are those of the failure-free scenario - with exactly one more call counted when a retry loop absorbed an `Interrupted`. -/
+theorem read_scenario_any_kind (ext : Ext) (pw : Option Bytes) (k : Nat) (d : Dev) :
+    (d.fkind ≠ .interrupted → openAndReadAllB ext pw (some k) d = openAndReadAll ext pw (some k) d) ∧
+    ((openAndReadAllB ext pw (some k) d).1.isOk = true →
+      (∀ o ∈ (openAndReadAllB ext pw (some k) d).2.1, o.isOk = true) →
+      (openAndReadAllB ext pw (some k) d).1 = (openAndReadAll ext pw none d).1 ∧
+      (openAndReadAllB ext pw (some k) d).2.1 = (openAndReadAll ext pw none d).2.1 ∧
+      ((openAndReadAllB ext pw (some k) d).2.2 = (openAndReadAll ext pw none d).2.2 ∨
+        (d.fkind = .interrupted ∧
+          (openAndReadAllB ext pw (some k) d).2.2 = (openAndReadAll ext pw none d).2.2.shift 1))) :=
+  ⟨fun hk => openAndReadAllB_hard ext pw (some k) d (Or.inl hk), openAndReadAllB_all_ok ext pw k d⟩
+
+/-- the hypotheses instantiated (kernel): `C05.oneEntry` on a device failing with `Interrupted` at call 5 (inside a
+`read_exact` of `new`) - `new` and the entry read return values, one more call than the failure-free scenario. -/
+example :
+    (openAndReadAllB storedExt none (some 5) (Dev.ofBytesK C05.oneEntry .interrupted)).1.isOk = true ∧
+    (openAndReadAllB storedExt none (some 5) (Dev.ofBytesK C05.oneEntry .interrupted)).2.1.all (·.isOk) = true ∧
+    (openAndReadAllB storedExt none (some 5) (Dev.ofBytesK C05.oneEntry .interrupted)).2.2.calls =
+      (openAndReadAll storedExt none none (Dev.ofBytesK C05.oneEntry .interrupted)).2.2.calls + 1 := by
+  refine ⟨by decide +kernel, by decide +kernel, by decide +kernel⟩
+
+/-- **Under one fault of any kind every call of the seekable reader returns an error or the failure-free outcome**
+(`ZipArchive::new`): the outcome component is `Err`, or it is the outcome of the failure-free run. -/
+theorem open_fault_outcome_any_kind (k : Nat) (d : Dev) :
+    (∃ e, (openArchiveI (some k) d).1 = .err e) ∨ (openArchiveI (some k) d).1 = (openArchive none d).1 := by
+  rcases open_interrupted_trichotomy k d with ⟨_, h⟩ | ⟨_, _, h⟩ | ⟨_, _, _, h⟩
+  · right; rw [h]
+  · right; rw [h]
+  · left; exact h
+
+/-- **No panic, any kind**: `ZipArchive::new` never panics; `find_content` and the entry reads do not on a device
+shorter than 2^63 bytes with codecs that do not panic (the hypotheses of the hard-failure theorem of C05). -/
+theorem seekable_reader_no_panic_any_kind (ext : Ext) (hext : ExtNoPanic ext) (fa : Option Nat) (d : Dev) :
+    (openArchiveI fa d).1.isPanic = false ∧
+    (DevSane d → ∀ a i pw, (byIndexReadI ext a i pw fa d).1.isPanic = false ∧
+      (byIndexReadB ext a i pw fa d).1.isPanic = false) := by
+  refine ⟨?_, fun hd a i pw => ⟨?_, ?_⟩⟩
+  · have := (openArchiveI_ri.noPanic openArchive_noPanic).elim fa d
+    simpa using this
+  · have := (byIndexReadI_ri ext a i pw).noPanicOn (byIndexRead_noPanicOn ext hext a i pw) fa d hd
+    simpa using this
+  · have := (byIndexReadB_ri ext a i pw).noPanicOn (byIndexRead_noPanicOn ext hext a i pw) fa d hd
+    simpa using this
+
+/-- **The first I/O call of `ZipArchive::new` is a bare `seek(End(0))`: its failure is reported, `Interrupted`
+included** (nothing retries a `seek`). -/
+theorem open_first_seek_reported (d : Dev) :
+    openArchiveI (some d.calls) d = (.err (.io d.fkind), d.shift 1) :=
+  openArchiveI_first_seek d
+
+/-- … and the first I/O call of `find_content` (hence of every `by_index`): `seek(Start(header_start))`. -/
+theorem find_content_first_seek_reported (f : FileData) (d : Dev) :
+    findContentI f (some d.calls) d = (.err (.io d.fkind), d.shift 1) :=
+  findContentI_first_seek f d
+
+/-- hypotheses instantiated: on the witness archive call 5 (inside a `read_exact`) is absorbed - the second case of the
+trichotomy -, call 0 (the bare seek) is the third. -/
+example : Fired 5 (Dev.ofBytesK zip64Zero .interrupted) (openArchive none (Dev.ofBytesK zip64Zero .interrupted)).2 ∧
+    (openArchiveI (some 5) (Dev.ofBytesK zip64Zero .interrupted)).2.calls =
+      (openArchive none (Dev.ofBytesK zip64Zero .interrupted)).2.calls + 1 ∧
+    C05.isErr (openArchiveI (some 0) (Dev.ofBytesK zip64Zero .interrupted)).1 = true := by
+  refine ⟨by decide +kernel, by decide +kernel, by decide +kernel⟩
+
+/-! ### `Interrupted` on the writer: the generic writer `GW` at `MI`
+
+`Model/InterruptedW.lean`: `write_all` on the sink retries (headers, directory, end records, the buffered ZipCrypto
+stream), `seek` / `flush` are bare, and the one sink `write` of `ZipWriter::write` is retried by that function's callers
+(`write_all`, `io::copy`).  `stepI` is `GW.step` at `MI`; `GW.step` at `M` IS the writer model (`GW.step_M`).  NOT covered:
+I/O inside the encoders (flate2 / bzip2 / zstd hand their output to the sink in loops that do not retry; the model
+coalesces it into one `write_all`) - compressing scenarios under `Interrupted` stay with the oracle. -/
+
+/-- **`ZipWriter::write` reports a failure of its sink call having changed nothing** (any error but the 4 GiB refusal,
+which closes the writer): the caller's retry loop (`write_all`, `io::copy`) that sees `Interrupted` and calls it again
+re-issues exactly that one sink call - why the `MI` writer treats it as a retried call. -/
+theorem zipwriter_write_fault_leaves_state (acc : Bytes → Nat) (buf : Bytes) (s s' : WState) (fa : Option Nat)
+    (d d' : Dev) (e : ZErr) (h : (GW.write acc buf s : M _) fa d = (.ok (.error e, s'), d')) (he : e ≠ .io .other) :
+    s' = s :=
+  GW.write_error_leaves_state acc buf s s' fa d d' e h he
+
+/-- **On a device that fails with any kind but `Interrupted`, and without a fault, the writer with std's convention IS
+the writer model** - every call of the alphabet, every state; `new_append`; whole call sequences. -/
+theorem writer_call_hard_kinds (ext : WExt) (fa : Option Nat) (d : Dev) (hk : d.fkind ≠ .interrupted ∨ fa = none) :
+    (∀ c s, stepI ext c s fa d = step ext c s fa d) ∧ newAppendI fa d = newAppend fa d ∧
+    (∀ calls s, runCallsI ext calls s fa d = runCalls ext calls s fa d) := by
+  refine ⟨fun c s => ?_, ?_, fun calls s => runCallsI_hard ext fa calls s d hk⟩
+  · rcases hk with hk | rfl
+    · exact (stepI_ri ext c s).hard fa d hk
+    · exact (stepI_ri ext c s).no_fault d
+  · rcases hk with hk | rfl
+    · exact newAppendI_ri.hard fa d hk
+    · exact newAppendI_ri.no_fault d
+
+/-- **One writer call under one fault, `Interrupted` included - the trichotomy**: not reached (the failure-free call);
+absorbed by a retry loop (`Interrupted` inside a `write_all`: outcome, writer state, sink bytes and position of the
+failure-free call, one more I/O call); or the fault fired in the hard-failure model too (a bare `seek` / `flush`, or any
+call when the kind is another one) and the answer is the writer model's - an error for every call but `drop`
+(`fired_fault_is_error`). -/
+theorem writer_call_interrupted_trichotomy (ext : WExt) (c : Call) (s : WState) (k : Nat) (d : Dev) :
+    (¬ Fired k d (step ext c s none d).2 ∧ stepI ext c s (some k) d = step ext c s none d) ∨
+    (Fired k d (step ext c s none d).2 ∧ d.fkind = .interrupted ∧
+      stepI ext c s (some k) d = ((step ext c s none d).1, (step ext c s none d).2.shift 1)) ∨
+    (Fired k d (step ext c s none d).2 ∧ Fired k d (step ext c s (some k) d).2 ∧
+      stepI ext c s (some k) d = step ext c s (some k) d) :=
+  (stepI_ri ext c s).interrupted k d
+
+/-- **A writer call (not `drop`) that returns `Ok` under one fault of ANY kind returned the failure-free value, state
+and sink** (bytes, position; one more call counted when a retry loop absorbed an `Interrupted`). -/
+theorem writer_call_ok_is_faultfree_any_kind (ext : WExt) (c : Call) (hc : isDrop c = false) (s s' : WState)
+    (k : Nat) (d d' : Dev) (v : Option Nat) (h : stepI ext c s (some k) d = (.ok (.ok v, s'), d')) :
+    ∃ d0, step ext c s none d = (.ok (.ok v, s'), d0) ∧
+      (d' = d0 ∨ (d.fkind = .interrupted ∧ Fired k d d0 ∧ d' = d0.shift 1)) :=
+  (stepI_ri ext c s).step_ok_is_faultfree (step_stepOK ext c hc s).ep h
+
+/-- **`new_append`**, likewise. -/
+theorem append_ok_is_faultfree_any_kind {k : Nat} {d d' : Dev} {s : WState}
+    (h : newAppendI (some k) d = (.ok s, d')) :
+    ∃ d0, newAppend none d = (.ok s, d0) ∧
+      (d' = d0 ∨ (d.fkind = .interrupted ∧ Fired k d d0 ∧ d' = d0.shift 1)) :=
+  newAppendI_ri.ok_is_faultfree newAppend_errOnFire h
+
+/-- **`all_ok_is_faultfree_any_kind`** - the headline at full strength over error kinds.  Every call sequence without
+`drop`, every state, every sink, one fault of ANY kind (`Interrupted` included) at any index: if every call returned
+`Ok`, the return values, the final writer state and the final sink - bytes AND position - are those of the
+failure-free run; the call counter is the failure-free one, or exactly one more when the device fails with
+`Interrupted` and a retry loop absorbed the fault. -/
+theorem all_ok_is_faultfree_any_kind (ext : WExt) (calls : List Call) (hnd : ∀ c ∈ calls, isDrop c = false)
+    (s : WState) (k : Nat) (d : Dev)
+    (hok : ∀ o ∈ (runCallsI ext calls s (some k) d).1, o.isOk = true) :
+    (runCallsI ext calls s (some k) d).1 = (runCalls ext calls s none d).1 ∧
+    (runCallsI ext calls s (some k) d).2.1 = (runCalls ext calls s none d).2.1 ∧
+    (runCallsI ext calls s (some k) d).2.2.buf = (runCalls ext calls s none d).2.2.buf ∧
+    (runCallsI ext calls s (some k) d).2.2.pos = (runCalls ext calls s none d).2.2.pos ∧
+    ((runCallsI ext calls s (some k) d).2.2.calls = (runCalls ext calls s none d).2.2.calls ∨
+      (d.fkind = .interrupted ∧
+        (runCallsI ext calls s (some k) d).2.2.calls = (runCalls ext calls s none d).2.2.calls + 1)) := by
+  obtain ⟨h1, h2, h3⟩ := runCallsI_all_ok ext k calls s d hnd hok
+  refine ⟨h1, h2, ?_, ?_, ?_⟩
+  · rcases h3 with h3 | ⟨_, h3⟩ <;> rw [h3] <;> rfl
+  · rcases h3 with h3 | ⟨_, h3⟩ <;> rw [h3] <;> rfl
+  · rcases h3 with h3 | ⟨hi, h3⟩
+    · exact Or.inl (by rw [h3])
+    · exact Or.inr ⟨hi, by rw [h3]; rfl⟩
+
+/-- No writer call panics under a fault of any kind (admissible calls from an `Inv` state on an in-range sink - the
+hypotheses of `writer_no_panic_under_fault`): a panic of the writer with std's convention would be one of the model. -/
+theorem writer_call_no_panic_any_kind (ext : WExt) (c : Call) (s : WState) (fa : Option Nat) (d : Dev)
+    (hm : ∀ fa', (step ext c s fa' d).1.isPanic = false) : (stepI ext c s fa d).1.isPanic = false := by
+  rcases (stepI_ri ext c s).rel fa d with e | ⟨k, _, _, _, e⟩
+  · rw [e]; exact hm fa
+  · rw [e]; exact hm none
+
+/-- the script of section E under `Interrupted`, every fault index of the 49 I/O calls: calls 0, 13 (`stream_position` of
+`start_file`), 15, 16, 20, 21, 40 (the seeks of `finish_file` / `finalize`) are bare and reported; every other fault is
+absorbed - all three calls `Ok`, the failure-free bytes, 50 calls.  (The implementation answers the same on every
+index: `corpus/fault.ops`.) -/
+def runI (k : Nat) := runCallsI ext0 script WState.init (some k) (Dev.ofBytesK [] .interrupted)
+
+theorem writer_interrupted_witness :
+    (List.range 49).all (fun k =>
+      if [0, 13, 15, 16, 20, 21, 40].contains k then (runI k).1.any (fun o => cls o == .err)
+      else (runI k).1.map cls == [.ok, .ok, .ok] && (runI k).2.2.calls == 50 &&
+        (runI k).2.2.buf == (run none).2.2.buf) = true := by
+  decide +kernel
+
+/-- **`fired_fault_is_error_hard_kinds`** - section C read over the models with std's convention, with the hypothesis
+that makes it a statement about the code: on a device whose failures are NOT `Interrupted`, a fault that fires inside
+`ZipArchive::new`, an entry read (either consumer) or a writer call other than `drop` is not `Ok`.  (For `Interrupted`
+the clause is false by design - std absorbs it inside its loops: `open_interrupted_trichotomy`,
+`writer_call_interrupted_trichotomy`, witnesses `open_interrupted_witness`, `writer_interrupted_witness`.) -/
+theorem fired_fault_is_error_hard_kinds (k : Nat) (d : Dev) (hk : d.fkind ≠ .interrupted) :
+    (Fired k d (openArchiveI (some k) d).2 → ∃ e, (openArchiveI (some k) d).1 = .err e) ∧
+    (∀ ext a i pw, Fired k d (byIndexReadI ext a i pw (some k) d).2 →
+      (byIndexReadI ext a i pw (some k) d).1 = .err (.io d.fkind)) ∧
+    (∀ ext a i pw, Fired k d (byIndexReadB ext a i pw (some k) d).2 →
+      (byIndexReadB ext a i pw (some k) d).1 = .err (.io d.fkind)) ∧
+    (∀ ext c s, isDrop c = false → Fired k d (stepI ext c s (some k) d).2 →
+      ∀ v s' d', stepI ext c s (some k) d ≠ (.ok (.ok v, s'), d')) := by
+  refine ⟨?_, fun ext a i pw => ?_, fun ext a i pw => ?_, fun ext c s hc => ?_⟩
+  · rw [(open_hard_kinds (some k) d hk).1]
+    exact open_fired_fault_is_error k d
+  · rw [(open_hard_kinds (some k) d hk).2.2.1 ext a i pw]
+    exact (read_fired_fault_is_error ext a i [] pw k d).1
+  · rw [(open_hard_kinds (some k) d hk).2.2.2 ext a i pw]
+    exact (read_fired_fault_is_error ext a i [] pw k d).1
+  · rw [(writer_call_hard_kinds ext (some k) d (Or.inl hk)).1 c s]
+    exact fired_fault_is_error ext c hc s k d
+
+/-- hypothesis instantiated: the devices of the generator's seven other kinds -/
+example : (Dev.ofBytesK [] .injected).fkind ≠ .interrupted ∧ (Dev.ofBytesK [] .invalidInput).fkind ≠ .interrupted ∧
+    (Dev.ofBytesK [] .unexpectedEof).fkind ≠ .interrupted := by decide
 
 /-- **`read_exact_interrupted`**: an `Interrupted` failure of a call `read_exact` makes is invisible - the failure-free
 result and device, one more call counted. -/
